@@ -337,7 +337,7 @@ func readCases(tr *wl.Trace, mode, only string, w wl.Workload, b []byte, f *refm
 			}
 		}
 	case "fault":
-		for at := 0; at < len(b); at++ {
+		for at := 0; at <= len(b); at++ { // at == len(b): an I/O error in place of end-of-file
 			if !want(only, "at", at) {
 				continue
 			}
